@@ -465,6 +465,7 @@ func init() {
 					below += n
 				}
 			}
+			run.Set(p.name+".executed_transitions", st.Transitions-st.Rejected)
 			run.Set(p.name+".epoch_starts_with_strictly_ordered_pair", strict)
 			run.Set(p.name+".epoch_starts_with_score_below_max", below)
 			lp := ""
